@@ -38,7 +38,7 @@ func (c scfg) String() string {
 	return fmt.Sprintf("%s-server peers=%d adversary=[%s] preempt<=%d delays<=%d", c.Kind, c.Peers, strings.Join(c.Adv, ","), c.Preempt, c.Delay)
 }
 
-var streamAdv = []string{"handshake-stall", "handshake-fail", "garbage", "half-frame", "oversize", "connect-close", "peer-close-mid"}
+var streamAdv = []string{"handshake-stall", "handshake-fail", "garbage", "half-frame", "oversize", "connect-close", "peer-close-mid", "attempt-refused"}
 
 func streamScenario(c scfg) *mcx.Scenario {
 	return &mcx.Scenario{
@@ -126,6 +126,9 @@ func streamScenario(c scfg) *mcx.Scenario {
 							advConns = append(advConns, L.Connect(remote, srvw.HandshakeStall))
 						case "handshake-fail":
 							advConns = append(advConns, L.Connect(remote, func(context.Context) error { return errors.New("bad certificate") }))
+						case "attempt-refused":
+							// the listener itself turns the attempt down (connection-attempt hook, accept error): Accept returns an error
+							L.Refuse(errors.New("connection attempt refused"))
 						case "garbage":
 							a := L.Connect(remote, hs)
 							a.Send([]byte{0xff, 0xff, 0xff, 0x01, 0x02, 0x03, 0xf0, 0x00})
